@@ -123,7 +123,10 @@ def run_case(R: Recorder, case: dict[str, Any], verbose: bool = False) -> None:
 
             item = next(uid)
             if case.get("falsy"):
-                item = (0, None, "", False, 0.0, (), 7, 14)[(i + n_items) % 8]
+                from haiway import MISSING
+
+                # ordinary elements that libraries like to use as sentinels: None, falsy values, the MISSING singleton, an exception instance
+                item = (0, None, "", MISSING, False, 0.0, (), 7, StopAsyncIteration("an element"), 14)[(i + n_items) % 10]
             if i in nested_at:
                 with ctx.scope("gnest", family.make("R1", 21)):
                     probe_here("nested")
